@@ -1,6 +1,7 @@
 import SJ.Proofs.MachineApTop
 import SJ.Proofs.MachineApCst
 import SJ.Proofs.MachineApSim
+import SJ.Proofs.MachineApShape
 import SJ.Props.C01Iff
 /-!
 # C01 / C02 under `arbitrary_precision`: the private Number token, as theorems about the faithful model
@@ -27,7 +28,7 @@ on such objects (open findings `C01-ap-private-number-token`, `C02-ap-…`, `C04
 namespace SJ.Props.C01Ap
 open SJ SJ.Gen SJ.Model.Machine SJ.Spec.Grammar SJ.Proofs.CanonM
 open SJ.Spec.Denote (decodeItems)
-open SJ.Spec.PrivateToken (hasTokenFirstKey TokenTail tokenFree)
+open SJ.Spec.PrivateToken (hasTokenFirstKey TokenTail tokenFree TokenObjectsShaped)
 open SJ.Model.MachineAp (ofMachine fromStr)
 
 /-- the parser model for a configuration: `MachineAp` (which is the machine unless `arbitrary_precision` + `Value`) -/
@@ -280,11 +281,8 @@ example : (parseAp ⟨{ ap := true }, .reader, .value⟩
     token first key: exactly the RFC 8259 texts meeting the side conditions of `c01_accepts_iff` (numbers are never out
     of range under the feature), and (2) every document that is an object whose first key decodes to the token: exactly
     those of the shape `{ "<token>" : "<number literal>" }` (whitespace anywhere RFC 8259 allows it).
-    MISSING for the full statement "RFC 8259 texts in which every token-first object has that shape": inputs in which a
-    token-first object is nested in, or stands beside, other containers. `c01_ap_token_object` gives the exact reading of
-    each such object in its context (from the machine state after its first key), but composing it over a derivation
-    needs the soundness / completeness inductions of C01 / C02 (`Proofs/Sound`, `Proofs/Complete`) redone for
-    `MachineAp` with a value relation that maps the one-member object to the number — not done. -/
+    The full statement for every input is `c01_ap_accepts_iff` (shape clause on the bytes); what remains partial is its
+    formulation on the syntax tree (`Spec.PrivateToken.TokenShaped t`), proved here only for these two families. -/
 theorem c01_ap_accepts_iff_partial (env : Env) (hap : env.cfg.ap = true) (hv : env.tgt = .value) :
     (∀ bs, hasTokenFirstKey bs = false →
       ((∃ v, parseAp env bs = .ok v) ↔
@@ -327,11 +325,25 @@ abbrev TokenTailsOK (env : Env) (bs : Bytes) : Prop := SJ.Proofs.MachineAp.Tails
 /-- **C01 (c), the accepted language under `arbitrary_precision`**: the faithful model accepts `bs` iff `bs` is an RFC 8259
     JSON text meeting the side conditions of `c01_accepts_iff` (numbers are never out of range under the feature) in which
     every object whose first key decodes to the token has the shape `{ "<token>" : "<number literal>" }`.
-    The shape clause is stated on the run of the byte-step machine (`TokenTailsOK`: the positions where it has read such a
-    key) rather than on the syntax tree (`Spec.PrivateToken.TokenShaped t`); the equivalence of the two formulations for
-    JSON texts is NOT proved (it needs the link between run positions and derivations that only C02's soundness invariant
-    has). `c01_ap_accepts_iff_partial` gives purely syntactic formulations for two families of inputs. -/
+    The shape clause is `Spec.PrivateToken.TokenObjectsShaped bs`, on the bytes: for every split `bs = pre ++ "key" ++ rest`
+    such that the lexical scan after `pre` is outside string literals with a `{` as last non-blank byte, and `key` is a
+    string literal decoding to the token, `rest` is `ws : ws "number literal" ws }` followed by anything
+    (`TokenTail`). (On the syntax tree the clause would read `Spec.PrivateToken.TokenShaped t`; that the two agree on JSON
+    texts is not proved — the grammar's unambiguity is not available here — so the theorem keeps the byte-level form,
+    which mentions neither a parser model nor a run.) -/
 theorem c01_ap_accepts_iff (env : Env) (hap : env.cfg.ap = true) (hv : env.tgt = .value) (bs : Bytes) :
+    (∃ v, parseAp env bs = .ok v) ↔
+    (∃ t, JsonText bs t ∧ (env.cfg.limitOff = true ∨ depth t ≤ 127) ∧ surrogatesPaired t = true ∧
+      (env.src ≠ .str → Spec.Canon.stringsUtf8 t = true)) ∧ TokenObjectsShaped bs := by
+  rw [SJ.Proofs.MachineAp.ap_iff_shaped env hap hv bs, SJ.Props.C01Iff.c01_accepts_iff env hv bs]
+  constructor
+  · rintro ⟨⟨t, h1, h2, h3, h4, _⟩, ht⟩; exact ⟨⟨t, h1, h2, h3, h4⟩, ht⟩
+  · rintro ⟨⟨t, h1, h2, h3, h4⟩, ht⟩
+    exact ⟨⟨t, h1, h2, h3, h4, SJ.Proofs.Complete.numbersInRange_ap (specCfg env.cfg) hap t⟩, ht⟩
+
+/-- the same with the shape clause on the run of the byte-step machine (`TokenTailsOK`); the two clauses agree on every
+    text the machine accepts (`Proofs.MachineAp.tails_iff_shaped`) -/
+theorem c01_ap_accepts_iff_run (env : Env) (hap : env.cfg.ap = true) (hv : env.tgt = .value) (bs : Bytes) :
     (∃ v, parseAp env bs = .ok v) ↔
     (∃ t, JsonText bs t ∧ (env.cfg.limitOff = true ∨ depth t ≤ 127) ∧ surrogatesPaired t = true ∧
       (env.src ≠ .str → Spec.Canon.stringsUtf8 t = true)) ∧ TokenTailsOK env bs := by
@@ -342,30 +354,31 @@ theorem c01_ap_accepts_iff (env : Env) (hap : env.cfg.ap = true) (hv : env.tgt =
     exact ⟨⟨t, h1, h2, h3, h4, SJ.Proofs.Complete.numbersInRange_ap (specCfg env.cfg) hap t⟩, ht⟩
 
 /-- non-vacuity: `[{"$serde_json::private::Number":"1"},{"a":{"$serde_json::private::Number":"2e3"}}]` is accepted, so it
-    is a JSON text and both token objects are well-shaped tails; with `"x"` in place of `"1"` the machine still accepts
-    (it is JSON) but the shape clause fails -/
-example : let env : Env := ⟨{ ap := true }, .slice, .value⟩
-    let doc (s : Bytes) : Bytes := [0x5b, 0x7b, 0x22] ++ Gen.numberToken ++ [0x22, 0x3a, 0x22] ++ s ++ [0x22, 0x7d, 0x2c, 0x7b, 0x22,
+    is a JSON text and both token objects are well-shaped; with `"x"` in place of `"1"` the machine still accepts (it is
+    JSON) but the shape clause fails -/
+def exEnv : Env := ⟨{ ap := true }, .slice, .value⟩
+
+example : let doc (s : Bytes) : Bytes := [0x5b, 0x7b, 0x22] ++ Gen.numberToken ++ [0x22, 0x3a, 0x22] ++ s ++ [0x22, 0x7d, 0x2c, 0x7b, 0x22,
       0x61, 0x22, 0x3a, 0x7b, 0x22] ++ Gen.numberToken ++ [0x22, 0x3a, 0x22, 0x32, 0x65, 0x33, 0x22, 0x7d, 0x7d, 0x5d]
-    TokenTailsOK env (doc [0x31]) ∧ ¬ TokenTailsOK env (doc [0x78]) := by
-  intro env doc
-  have hacc : (parseAp env (doc [0x31])).isOk
+    TokenObjectsShaped (doc [0x31]) ∧ ¬ TokenObjectsShaped (doc [0x78]) := by
+  intro doc
+  have hacc : (parseAp exEnv (doc [0x31])).isOk
       (.arr [.num (.lit [0x31]), .obj [([0x61], .num (.lit [0x32, 0x65, 0x33]))]]) = true := by decide +kernel
-  have hrej : (parseAp env (doc [0x78])).isCustom .InvalidNumber 1 1 = true := by decide +kernel
-  have hmb : (match parseTop env (doc [0x78]) with | .ok _ => true | .err _ _ => false) = true := by decide +kernel
-  have hm : ∃ v', parseTop env (doc [0x78]) = .ok v' := by
-    cases h : parseTop env (doc [0x78]) with
+  have hrej : (parseAp exEnv (doc [0x78])).isCustom .InvalidNumber 1 1 = true := by decide +kernel
+  have hmb : (match parseTop exEnv (doc [0x78]) with | .ok _ => true | .err _ _ => false) = true := by decide +kernel
+  have hm : ∃ v', parseTop exEnv (doc [0x78]) = .ok v' := by
+    cases h : parseTop exEnv (doc [0x78]) with
     | ok v' => exact ⟨v', rfl⟩
     | err c i => rw [h] at hmb; cases hmb
   constructor
-  · cases h : parseAp env (doc [0x31]) with
-    | ok v => exact SJ.Proofs.MachineAp.tails_of_ap env _ v h
+  · cases h : parseAp exEnv (doc [0x31]) with
+    | ok v => exact ((SJ.Proofs.MachineAp.ap_iff_shaped exEnv rfl rfl _).mp ⟨v, h⟩).2
     | err c i => rw [h] at hacc; cases hacc
     | data i => rw [h] at hacc; cases hacc
     | custom c l k => rw [h] at hacc; cases hacc
   · intro ht
-    obtain ⟨v, hv⟩ := (SJ.Proofs.MachineAp.ap_iff env rfl rfl _).mpr ⟨hm, ht⟩
-    rw [show Model.MachineAp.parseTop env (doc [0x78]) = parseAp env (doc [0x78]) from rfl] at hv
+    obtain ⟨v, hv⟩ := (SJ.Proofs.MachineAp.ap_iff_shaped exEnv rfl rfl _).mpr ⟨hm, ht⟩
+    rw [show Model.MachineAp.parseTop exEnv (doc [0x78]) = parseAp exEnv (doc [0x78]) from rfl] at hv
     rw [hv] at hrej; cases hrej
 
 /-- non-vacuity of (2): `{"$serde_json::private::Number":"1"}` has the shape -/
